@@ -324,6 +324,9 @@ func checkC18(c *Check) {
 				ck = cl
 			}
 		})
+		if ck == nil {
+			c.Bad(p.FuncKey(fn)+":absent", p.FuncPos(fn), "Cookie() no longer reads the cookie through net/http's (*http.Request).Cookie (a shadowing or memoising wrapper decides which cookie is seen)")
+		}
 		if ck != nil {
 			missing := edgesWhere(fn, cCmp(token.NEQ, vExtract(1, vIs(ck)), vNil), true)
 			good := len(missing) > 0 && vParam(fn, 1)(ck.Call.Args[1])
